@@ -368,10 +368,10 @@ class CommonRD:
         try:
             oldreg = self._by_key[key]
         except KeyError:
+            oldreg = None
             path = self._new_pathtail()
         else:
             path = oldreg.path[len(self.entity_prefix) :]
-            oldreg.delete()
 
         # this was the brutal way towards idempotency (delete and re-create).
         # if any actions based on that are implemented here, they have yet to
@@ -397,6 +397,14 @@ class CommonRD:
             proxy_host,
             setproxyremote,
         )
+
+        # Only now that the new registration's parameters have been accepted
+        # (the constructor raises BadRequest otherwise) the old one goes away.
+        if oldreg is not None:
+            oldreg.delete()
+            if proxy_host is not None:
+                # The old registration's deletion dropped the shared entry
+                setproxyremote(network_remote)
 
         self._by_key[key] = reg
         self._by_path[path] = reg
